@@ -102,6 +102,8 @@ var opName = map[Op]string{
 }
 
 type Term struct {
+	lo, hi uint64 // unsigned value range (valid if rng)
+	rng    bool
 	ID    int
 	Op    Op
 	Args  []*Term
@@ -334,6 +336,13 @@ func (b *Builder) Eq(x, y *Term) *Term {
 			return b.Not(x)
 		}
 	}
+	if x.Sort.K == KBV {
+		xl, xh := b.urange(x)
+		yl, yh := b.urange(y)
+		if xh < yl || yh < xl {
+			return b.False
+		}
+	}
 	if x.ID > y.ID {
 		x, y = y, x
 	}
@@ -481,6 +490,16 @@ func (b *Builder) BVCmp(op Op, x, y *Term) *Term {
 	}
 	if x == y {
 		return b.BoolConst(op == OULE || op == OSLE)
+	}
+	if op == OULT || op == OULE {
+		xl, xh := b.urange(x)
+		yl, yh := b.urange(y)
+		switch {
+		case op == OULT && xh < yl, op == OULE && xh <= yl:
+			return b.True
+		case op == OULT && xl >= yh, op == OULE && xl > yh:
+			return b.False
+		}
 	}
 	return b.mk(&Term{Op: op, Sort: Bool, Args: []*Term{x, y}})
 }
@@ -1044,3 +1063,59 @@ func b2u(b bool) uint64 {
 }
 
 var _ = bits.Len
+
+// urange returns a sound unsigned value range of a bit-vector term.
+func (b *Builder) urange(t *Term) (uint64, uint64) {
+	if t.rng {
+		return t.lo, t.hi
+	}
+	w := t.Sort.W
+	lo, hi := uint64(0), mask(w)
+	switch t.Op {
+	case OConst:
+		lo, hi = t.V, t.V
+	case OZExt:
+		lo, hi = b.urange(t.Args[0])
+	case OExtract:
+		if t.J == 0 {
+			xl, xh := b.urange(t.Args[0])
+			if xh <= mask(w) {
+				lo, hi = xl, xh
+			}
+		}
+	case OBAnd:
+		_, xh := b.urange(t.Args[0])
+		_, yh := b.urange(t.Args[1])
+		hi = xh
+		if yh < hi {
+			hi = yh
+		}
+	case OAdd:
+		xl, xh := b.urange(t.Args[0])
+		yl, yh := b.urange(t.Args[1])
+		if xh+yh >= xh && xh+yh <= mask(w) {
+			lo, hi = xl+yl, xh+yh
+		}
+	case OIte:
+		xl, xh := b.urange(t.Args[1])
+		yl, yh := b.urange(t.Args[2])
+		lo, hi = xl, xh
+		if yl < lo {
+			lo = yl
+		}
+		if yh > hi {
+			hi = yh
+		}
+	case OLShr:
+		if t.Args[1].IsConst() && t.Args[1].V < 64 {
+			xl, xh := b.urange(t.Args[0])
+			lo, hi = xl>>t.Args[1].V, xh>>t.Args[1].V
+		}
+	case OURem:
+		if t.Args[1].IsConst() && t.Args[1].V > 0 {
+			hi = t.Args[1].V - 1
+		}
+	}
+	t.lo, t.hi, t.rng = lo, hi, true
+	return lo, hi
+}
